@@ -182,8 +182,14 @@ def roundtrip(tg, data, work, fmt, blanks, keep, thr, k):
 
     fn1 = os.path.join(str(work), "rt%d_a" % (k % 4))
     fn2 = os.path.join(str(work), "rt%d_b" % (k % 4))
+    # the reporting mode of save only matters for a textgrid that is not validate()-clean ("error" then refuses, as documented);
+    # for the reader it must not matter at all for a file save has written, nor may the duplicate-name policy
+    clean = all(t["min"] == data["min"] and t["max"] == data["max"] for t in data["tiers"])
+    smode = ("silence", "warning", "error" if clean else "silence", "silence")[(k // 3) % 4]
+    omode = ("silence", "error", "warning", "silence", "error")[(k // 7) % 5]
+    dmode = "rename" if (k // 5) % 3 == 0 else "error"
     try:
-        tg.save(fn1, fmt, blanks, None, None, thr, "silence")
+        tg.save(fn1, fmt, blanks, None, None, thr, smode)
     except Exception as e:
         rec = {"snap": snap.tg_snap(tg), "format": fmt, "blanks": blanks, "minT": None, "maxT": None, "thr": thr}
         if judgeable(rec) is None:
@@ -192,7 +198,7 @@ def roundtrip(tg, data, work, fmt, blanks, keep, thr, k):
                           {"format": fmt, "text_format": fmt in TC.TEXT_FORMATS, "keyword": tggen.data_splits_reader(data), "exc": type(e).__name__, "step": "save"})
         return
     try:
-        back = tgmod.openTextgrid(fn1, keep, "silence")
+        back = tgmod.openTextgrid(fn1, keep, omode, dmode)
     except Exception:
         return  # judged by the open monitor
     s = snap.tg_snap(tg)
